@@ -348,7 +348,8 @@ PROPS["C19"] = {
     },
     "outside": ["InstrumentStates::filtered / filtered_mut (the filter predicates) and Engine::action(Command::CancelOrders | ClosePositions) over a whole "
                 "engine state incl. 'repeating a cancel command requests nothing new' at engine level - engine-level harnesses (Either-typed iterator "
-                "chains over maps of instrument states) did not fit; only the two per-order / per-position kernels are claimed",
+                "chains over maps of instrument states) did not fit: even InstrumentStates::instruments(&InstrumentFilter::None) over a literal "
+                "2-instrument state gave no result in 25 min; only the per-order / per-position kernels and the cancel-request cells are claimed",
                 ],
     "assumptions": [],
     "tiers": {
